@@ -283,6 +283,11 @@ impl ShmReader {
             #[cfg(feature = "verif")]
             let snapshot = unsafe { crate::verif::data_read(self.ceb_shm) };
 
+            // An acquire load only orders the accesses that follow it. Without this fence the
+            // loads of the record above may be satisfied after the generation is read again, and
+            // a partly updated record could be accepted under an unchanged even generation.
+            atomic::fence(atomic::Ordering::Acquire);
+
             // Confirm no update occurred during the read
             let second_gen = generation.load(atomic::Ordering::Acquire);
             if first_gen == second_gen {
